@@ -11,7 +11,7 @@ from fractions import Fraction
 from hypothesis import strategies as st
 
 from vlib import env  # noqa  (sys.path)
-from vlib.harness import SubCheck, sut, is_err, short
+from vlib.harness import SubCheck, sut, is_err
 from vlib import gen_units as G
 
 PROPERTY = "C10"
@@ -536,7 +536,6 @@ def check_integrate(case, ctx):
                     okw["output_time_unit"] = G.pq_single(case["out_time"])
                 odesys, extra = _get_odesys(rsys, REG, include_params=not named, **okw)
                 res = sut(odesys.integrate, t_q, c0_q, p_q if named else [], **kw)
-                want_conc_dim = CONC
             else:
                 from chempy.kinetics.ode import _create_odesys
                 odesys, extra = _create_odesys(rsys, unit_registry=REG)
